@@ -495,6 +495,18 @@ def _shard_main(args):
     return ctx.finish().pack()
 
 
+def clear_replays(prop, tier, seed):
+    """remove the replay files of an earlier run of the same check, tier and seed"""
+    if os.path.isdir(REPLAY_DIR):
+        prefix = '%s-%s-seed%d-' % (prop, tier, seed)
+        for name in os.listdir(REPLAY_DIR):
+            if name.startswith(prefix):
+                try:
+                    os.remove(os.path.join(REPLAY_DIR, name))
+                except OSError:
+                    pass
+
+
 def write_replay(prop, seed, tier, viol, index):
     os.makedirs(REPLAY_DIR, exist_ok=True)
     h = hashlib.blake2b(viol['sig'].encode('utf-8', 'surrogatepass'), digest_size=4).hexdigest()
@@ -548,15 +560,24 @@ def run_check(prop, module_name, tier, seed, spec):
     status = 0
     replay_paths = []
     seen_sig = set()
+    MAX_REPORTED = 60
+    clear_replays(prop, tier, seed)
     for idx, v in enumerate(fresh):
+        status = 1
+        if v['sig'] in seen_sig:
+            if v['n'] == 0 and len(seen_sig) <= MAX_REPORTED:
+                write_replay(prop, seed, tier, v, idx)          # a further witness of a reported signature
+            continue
+        seen_sig.add(v['sig'])
+        if len(seen_sig) > MAX_REPORTED:
+            continue
         path = write_replay(prop, seed, tier, v, idx)
         replay_paths.append(path)
-        if v['sig'] not in seen_sig:
-            seen_sig.add(v['sig'])
-            out_lines.append('VIOLATION property=%s replay=%s' % (prop, path))
-            out_lines.append('  signature: %s (%d occurrences)' % (v['sig'], v['n']))
-            out_lines.append('  %s' % (v['what'][:600],))
-        status = 1
+        out_lines.append('VIOLATION property=%s replay=%s' % (prop, path))
+        out_lines.append('  signature: %s (%d occurrences)' % (v['sig'], v['n']))
+        out_lines.append('  %s' % (v['what'][:600],))
+    if len(seen_sig) > MAX_REPORTED:
+        out_lines.append('NOTE: %d further violation signatures are not listed (see evidence file)' % (len(seen_sig) - MAX_REPORTED))
 
     reason = None
     if total.inconclusive:
@@ -584,7 +605,7 @@ def run_check(prop, module_name, tier, seed, spec):
         'shards': nshards,
         'truncated_by_deadline': total.truncated,
         'known_finding_hits': known_hits,
-        'fresh_violation_signatures': sorted(seen_sig),
+        'fresh_violation_signatures': sorted(seen_sig)[:200],
         'verdict': {0: 'held on what was observed', 1: 'violated', 2: 'inconclusive'}[status],
         'exhaustive': False,
     }
